@@ -47,7 +47,8 @@ const rule = "case = rapid-drawn (in half of the cases a pre-history of the prim
 	"clause 2 judged before the workload), " +
 	"nack_sender (raw replica that reads its stream and keeps calling NegativeAcknowledge with its session id every 0.2-5 ms from 1-3 goroutines for " +
 	"sequence 1 / its last sequence / a future sequence, or follows the protocol but drops every 2nd-7th message and NACKs the gap; with or without " +
-	"acknowledgements; clause 2 observed only), none); executed in a child process over loopback TCP; " +
+	"acknowledgements; clause 2 observed only), reconnect_storm (1-4 goroutines opening and cancelling StreamWAL in a tight loop while the " +
+	"heartbeat monitor runs every 1-5 ms), none); executed in a child process over loopback TCP; " +
 	"oracle = (1) every Put/Get/Commit on the primary returns within 10 s without error, (2) GetNodeInfo no longer lists the faulty replica " +
 	"10 x heartbeat timeout after the workload (classes stalled_reader, tcp_stall, tcp_reset, no_ack, tcp_stall_quiet), (3) every healthy replica equals the primary " +
 	"(gets + full scan) within 60 s + 3 s per 100 steps and still 2 s later. " +
@@ -150,6 +151,9 @@ func runChild(c *Case) *Result {
 	if r := readResult(spec.Out); r != nil {
 		return r
 	}
+	if r := processDied(stderr.String()); r != nil {
+		return r
+	}
 	return &Result{Verdict: "infra", Msg: fmt.Sprintf("child ended without a result (%v); stderr: %s", werr, tailStr(stderr.String(), 1500))}
 }
 
@@ -189,6 +193,11 @@ func record(c *Case, r *Result) {
 			ev.R().Count("faulty_session_dropped:"+c.Fault.Class, 1)
 		} else if r.Verdict == "ok" {
 			ev.R().Count("faulty_session_still_listed(not judged):"+c.Fault.Class, 1)
+		}
+	}
+	if c.Fault.Class == "reconnect_storm" && r.FaultyStats != nil {
+		if v, ok := r.FaultyStats["storm_cycles"].(float64); ok {
+			ev.R().Count("storm_register_unregister_cycles", int(v))
 		}
 	}
 	if c.Fault.Class == "nack_sender" && r.FaultyStats != nil {
@@ -323,4 +332,44 @@ func summary(r *Result) string {
 // bound + slack.
 func capFor(c *Case) time.Duration {
 	return convBound(c) + 30*time.Second + 120*time.Second + 60*time.Second
+}
+
+// processDied turns a child that was killed by the Go runtime (fatal error or
+// unrecovered panic) inside repository code into a violation: the process that
+// hosts the primary (and the replicas) died. The goroutine that crashed is the
+// first one of the dump; it must have a repository frame, otherwise the death
+// is the harness's own problem (infrastructure).
+func processDied(stderr string) *Result {
+	i := strings.Index(stderr, "fatal error: ")
+	if j := strings.Index(stderr, "panic: "); j >= 0 && (i < 0 || j < i) {
+		i = j
+	}
+	if i < 0 {
+		return nil
+	}
+	rest := stderr[i:]
+	first := rest
+	if k := strings.IndexByte(first, '\n'); k >= 0 {
+		first = first[:k]
+	}
+	// the crashing goroutine: from the first "goroutine " header to the next blank line
+	g := rest
+	if k := strings.Index(g, "\ngoroutine "); k >= 0 {
+		g = g[k+1:]
+	}
+	if k := strings.Index(g, "\n\n"); k >= 0 {
+		g = g[:k]
+	}
+	if !strings.Contains(g, "github.com/KevoDB/kevo/") {
+		return nil
+	}
+	who := "primary"
+	if strings.Contains(g, "replication.(*Replica)") {
+		who = "replica"
+	}
+	if len(rest) > 6000 {
+		rest = rest[:6000]
+	}
+	return &Result{Verdict: "violation", Sig: who + "-process-died:" + clip(first, 120),
+		Msg: "the process hosting the primary and its replicas was killed by the Go runtime:\n" + rest}
 }
